@@ -1,10 +1,11 @@
 """OP rules: operator tables and serialisation as sibling-agreement checks (properties C20, C22, C23,
 operator clause of C28)."""
 import ast
+import copy
 
 from .core import AnalysisError, iter_nodes, norm, cnorm, cnorm_text
 from . import astq
-from .astq import parents, calls_named, definitions, enclosing_ifs, const_int, attr_tail
+from .astq import parents, calls_named, definitions, enclosing_ifs, const_int, attr_tail, reaching_definitions
 from .linform import Lin, to_lin
 
 NONCOMM = {'sub': ast.Sub, 'truediv': ast.Div, 'floordiv': ast.FloorDiv, 'mod': ast.Mod, 'pow': ast.Pow, 'lshift': ast.LShift,
@@ -761,3 +762,76 @@ def rule_OP7(ctx, rep):
                             f'operand (scalar {m.name.strip("_")} array, a broadcast plain NumPy supports and the array\'s own method handles) the scalar protocol is '
                             'run on an array and fails, instead of NotImplemented letting the array method take over')
     return n
+
+
+# ---------------------------------------------------------------------------------- OP8
+def _le_atom(t, truth, xpf):
+    """a comparison as (Lin, c) meaning Lin <= c, or None"""
+    from .linform import to_lin
+    if not (isinstance(t, ast.Compare) and len(t.ops) == 1):
+        return None
+    op = type(t.ops[0])
+    if not truth:
+        op = {ast.Lt: ast.GtE, ast.GtE: ast.Lt, ast.Gt: ast.LtE, ast.LtE: ast.Gt}.get(op)
+    if op not in (ast.Lt, ast.LtE, ast.Gt, ast.GtE):
+        return None
+    L, R = to_lin(xpf(t.left), opaque=True), to_lin(xpf(t.comparators[0]), opaque=True)
+    if L is None or R is None:
+        return None
+    d, c = (L - R, -1) if op is ast.Lt else (L - R, 0) if op is ast.LtE else (R - L, -1) if op is ast.Gt else (R - L, 0)
+    return (d - Lin(d.c), c - d.c)        # constants on the right: m <= n - 1 is m - n <= -1
+
+
+def rule_OP8(ctx, rep):
+    """division algorithm, both representations: `_mod` / `_divmod` hand the dividend back unreduced as the remainder exactly under
+    deg a < deg b, with deg as defined by the representation's own `_degree` (len(a) - 1 for coefficient lists, a.bit_length() - 1 for
+    bitmasks); any other guard returns a remainder of degree >= deg b for some operands (or reduces needlessly)."""
+    from . import routes
+    from .linform import to_lin, Lin
+    model = ctx.model
+    n = 0
+    for cname in ('Polynomial', 'BinaryPolynomial'):
+        dg = model.func(f'gfpx::{cname}._degree')
+        dret = [r for r in iter_nodes(dg.node) if isinstance(r, ast.Return) and r.value is not None]
+        dpar = [p for p in dg.params if p not in ('cls', 'self')]
+        if len(dret) != 1 or len(dpar) != 1:
+            raise AnalysisError(f'OP8: {cname}._degree is not a single expression of its operand')
+
+        def deg(of):
+            class S(ast.NodeTransformer):
+                def visit_Name(self, x):
+                    return ast.Name(id=of, ctx=ast.Load()) if x.id == dpar[0] else x
+            return to_lin(S().visit(copy.deepcopy(dret[0].value)), opaque=True)
+        for fname in ('_mod', '_divmod'):
+            fn = model.func(f'gfpx::{cname}.{fname}')
+            pm = parents(fn.node)
+            pa = [p for p in fn.params if p not in ('cls', 'self')]
+            if len(pa) < 2:
+                raise AnalysisError(f'OP8: {cname}.{fname} does not take (a, b)')
+            a, b = pa[0], pa[1]
+            da, db = deg(a), deg(b)
+            if da is None or db is None:
+                raise AnalysisError(f'OP8: degree of {cname} not linear in a size of the operand')
+            target = ((da - db) - Lin((da - db).c), -1 - (da - db).c)
+            for r in iter_nodes(fn.node):
+                if not (isinstance(r, ast.Return) and r.value is not None):
+                    continue
+                v = r.value.elts[-1] if isinstance(r.value, ast.Tuple) and r.value.elts else r.value
+                if not (isinstance(v, ast.Name) and v.id == a):
+                    continue
+                rd = reaching_definitions(fn.node, a, r, pm)
+                if not rd or any(x[2] != 'param' for x in rd):
+                    continue        # the reduced dividend, not the operand
+                _b, guards = routes._context(fn, r, pm)
+                if any(isinstance(t, ast.Compare) and isinstance(t.ops[0], (ast.Is, ast.IsNot)) and (isinstance(t.ops[0], ast.Is) == tv) for t, tv in guards):
+                    continue        # `b is None`: no modulus at all (see _powmod)
+                n += 1
+                atoms = [_le_atom(t, tv, lambda e: routes.xp(fn, e, r, pm)) for t, tv in guards]
+                if any(at is not None and repr(at[0]) == repr(target[0]) and at[1] == target[1] for at in atoms):
+                    rep.ok('OP8', fn, r, f'the dividend is the remainder exactly when deg {a} < deg {b} ({norm(dret[0].value)} of the operands)')
+                else:
+                    shown = [norm(t) if tv else f'not ({norm(t)})' for t, tv in guards if isinstance(t, ast.Compare) and not isinstance(t.ops[0], (ast.Eq, ast.NotEq))]
+                    rep.bad('OP8', fn, r, f'the dividend is handed back unreduced under {shown or "no degree test"}, which is not deg {a} < deg {b} '
+                            f'(degree = {norm(dret[0].value)}): for operands of equal degree the remainder keeps the degree of the divisor (a = q*b + r with deg r < deg b fails)')
+    if n < 4:
+        raise AnalysisError(f'OP8: only {n} early exits of _mod/_divmod returning the dividend found (expected 4)')
